@@ -200,7 +200,9 @@ def oracle(case, out):
     m = out["mark"]
     if m is None:
         return None
-    late = out["log"][m:]
+    # finally actions are release callbacks: when the terminating notification was delivered inside an inner subscribe() call they
+    # run as soon as that subscription is handed over (same call stack, right after dispose() returned) - that is C40's business
+    late = [e for e in out["log"][m:] if e[0] != "fin"]
     if late:
         return f"after dispose() returned (during notification {case['k']}): {late[:4]} ran/was delivered"
     return None
@@ -229,6 +231,8 @@ def classify(case, why):
         return None
     spans = [(a, b) for kind, a, b in out["spans"] if kind == "expand"]
     for ev in out["log"][out["mark"]:]:
+        if ev[0] == "fin":
+            continue
         i = _ident(ev)
         if i is None or not any(a <= i <= b for a, b in spans):
             return None
